@@ -37,13 +37,14 @@ def leftover_stage(ctx, cov):
                 violation(ctx, "reopening a device that holds two intact generations of a key exposes key %s, which no reachable record of the device carries (bytes inside a superseded value were read as a record)" % [k for k in live(im) if k not in live(mo)][0], body, tag="leftover")
             else:
                 violation(ctx, "correspondence: the real recovery and the Lean reader disagree on a two-generation device", body, no_input=True, tag="leftover")
+    fmt_engine.rep_lines(ctx, outs, cov, "after recovering a device that holds two intact generations of a key")
     ctx.log("leftover stage: %d two-generation devices, %d differences" % (n, bad))
     cov["two_generation_devices"] = n
     cov["two_generation_device_differences"] = bad
     cov["multiblock_loser_above_newer"] = kinds.get("dup-generation-multiblock-loser-above", 0)
 
-MODULE = "Feox.Props.C03"
-THEOREMS = ['Feox.C03.byte_scan_of_tiled', 'Feox.Fmt.scan_rep_tiled', 'Feox.Fmt.scan_step_rec', 'Feox.Fmt.scan_step_mark', 'Feox.Fmt.scan_step_free', 'Feox.C03.allocation_from_the_front_keeps_spans', 'Feox.C03.interleaved_batches_lose_a_record', 'Feox.C03.every_crash_point', 'Feox.C03.clear_journal_is_quiescent', 'Feox.C03.view_single_run', 'Feox.Proto.Txn.step_inv', 'Feox.Proto.Txn.crash_view', 'Feox.C03.recover_ok', 'Feox.C03.recovered_complete', 'Feox.C03.write_txn_crash_safe', 'Feox.C03.write_txn_commit', 'Feox.C03.retire_txn_crash_safe', 'Feox.C03.before_intent', 'Feox.Proto.TiledBy.skip', 'Feox.Proto.TiledBy.mask', 'Feox.Proto.TiledBy.fill', 'Feox.Proto.maskRun_ignores']
+MODULE = "Feox.Props.C03W"
+THEOREMS = ['Feox.C03.crash_during_write_on_bytes', 'Feox.C03.crash_during_retirement_on_bytes', 'Feox.Fmt.replay_on_bytes', 'Feox.C03.write_commit_on_bytes', 'Feox.C03.retirement_on_bytes', 'Feox.Fmt.commit_record', 'Feox.Fmt.retire_region', 'Feox.Fmt.holds_after_write', 'Feox.C03.byte_scan_of_tiled', 'Feox.Fmt.scan_rep_tiled', 'Feox.Fmt.scan_step_rec', 'Feox.Fmt.scan_step_mark', 'Feox.Fmt.scan_step_free', 'Feox.C03.allocation_from_the_front_keeps_spans', 'Feox.C03.interleaved_batches_lose_a_record', 'Feox.C03.every_crash_point', 'Feox.C03.clear_journal_is_quiescent', 'Feox.C03.view_single_run', 'Feox.Proto.Txn.step_inv', 'Feox.Proto.Txn.crash_view', 'Feox.C03.recover_ok', 'Feox.C03.recovered_complete', 'Feox.C03.write_txn_crash_safe', 'Feox.C03.write_txn_commit', 'Feox.C03.retire_txn_crash_safe', 'Feox.C03.before_intent', 'Feox.Proto.TiledBy.skip', 'Feox.Proto.TiledBy.mask', 'Feox.Proto.TiledBy.fill', 'Feox.Proto.maskRun_ignores']
 
 
 def run(ctx):
